@@ -2,6 +2,7 @@ package main
 
 import (
 	"fmt"
+	"time"
 
 	"github.com/0xrawsec/sod"
 	"github.com/0xrawsec/sod/zzverif/vfs"
@@ -644,6 +645,114 @@ func runBigC04(c *Ctx) {
 				c.Distinct("states", key)
 				c.Distinct("distinct_nontrivial", key)
 			}
+		}
+	}
+}
+
+// bigPending (C17 / C10): many more pending asynchronous writes than any internal batch size
+// when the settings switch (or a barrier) must put them all on disk.
+func bigPending(c *Ctx, prop string, n int, how string) []Violation {
+	cfg := Cfg{}
+	return runBig(prop, cfg, func(b *bigWorld) {
+		as := sod.DefaultSchema
+		as.Asynchrone(1<<30, 1000*time.Hour)
+		if err := b.db.Create(&Wide{}, as); err != nil {
+			b.fail("create", "Create (asynchronous) failed: "+err.Error())
+			return
+		}
+		objs := make([]sod.Object, 0, n)
+		ids := make([]string, 0, n)
+		for i := 0; i < n; i++ {
+			o := &Wide{A: i % 7, B: wideB(i % 7), U: i, K: wideKey(), N: wideSerial, Seq: i}
+			objs = append(objs, o)
+		}
+		if k, err := b.db.InsertOrUpdateMany(objs...); err != nil || k != n {
+			b.fail("insert", fmt.Sprintf("InsertOrUpdateMany of %d objects returned (%d, %v)", n, k, err))
+			return
+		}
+		for _, o := range objs {
+			ids = append(ids, o.UUID())
+		}
+		var err error
+		switch how {
+		case "settings-off":
+			err = b.db.Create(&Wide{}, sod.DefaultSchema)
+		case "settings-cache":
+			s := sod.DefaultSchema
+			s.Cache = true
+			err = b.db.Create(&Wide{}, s)
+		case "flushallcommit":
+			err = b.db.FlushAllAndCommit(&Wide{})
+		case "close":
+			err = b.db.Close()
+		}
+		if err != nil {
+			b.fail("call-err|"+how, how+" failed: "+err.Error())
+			return
+		}
+		onDisk := map[string]bool{}
+		for _, p := range vfs.Cur.Paths(dbRoot) {
+			i := len(p) - 1
+			for i >= 0 && p[i] != '/' {
+				i--
+			}
+			base := p[i+1:]
+			if len(base) >= 36 && base[0] != '.' {
+				onDisk[base[:36]] = true
+			}
+		}
+		missing := 0
+		for _, u := range ids {
+			if !onDisk[u] {
+				missing++
+			}
+		}
+		if missing > 0 {
+			b.fail("not-on-disk|"+how, fmt.Sprintf("%d writes were pending; %s returned and %d accepted objects have no file", n, how, missing))
+			return
+		}
+		if how != "close" {
+			if cnt, err := b.db.Count(&Wide{}); err != nil || cnt != n {
+				b.fail("count|"+how, fmt.Sprintf("after %s Count = (%d, %v), expected %d", how, cnt, err, n))
+				return
+			}
+			if err := b.db.Control(); err != nil {
+				b.fail("control|"+how, fmt.Sprintf("after %s Control fails: %v", how, err))
+				return
+			}
+		}
+		db2 := sod.Open(dbRoot)
+		if cnt, err := db2.Count(&Wide{}); (err != nil || cnt != n) && how != "flushallcommit" || (how == "flushallcommit" && err != nil) {
+			b.fail("second-handle|"+how, fmt.Sprintf("after %s a new handle counts (%d, %v), expected %d", how, cnt, err, n))
+		}
+		c.Count("evaluations", 1)
+	})
+}
+
+func runBigPending(c *Ctx, prop string) {
+	sizes := []int{9000}
+	if c.Tier == "thorough" {
+		sizes = []int{4097, 8193, 9000, 20000}
+	}
+	hows := []string{"settings-off", "settings-cache"}
+	if prop == "C10" {
+		hows = []string{"flushallcommit", "close"}
+	}
+	item := 0
+	for _, n := range sizes {
+		for _, how := range hows {
+			item++
+			if item%c.NShards != c.Shard {
+				continue
+			}
+			for _, v := range bigPending(c, prop, n, how) {
+				c.Violation(v)
+			}
+			c.Count("transitions", n)
+			c.Count("paths_replayed", 1)
+			key := fmt.Sprintf("bigpending|%d|%s", n, how)
+			c.Distinct("states", key)
+			c.Distinct("distinct_nontrivial", key)
 		}
 	}
 }
